@@ -208,6 +208,11 @@ impl Compactor {
 		}
 
 		writer.finish()?;
+
+		// Make the new table durable before the manifest refers to it and the input
+		// tables are deleted (the memtable flush path does the same).
+		crate::vfs::open_for_sync(path)?.sync_all()?;
+
 		Ok(true)
 	}
 
